@@ -15,12 +15,12 @@ Record fixes := mk_fixes {
   fx_vcid : bool;       (* RtmpMsg.VideoCodecId checks len >= 1 / 5 *)
   fx_tsidx : bool;      (* Rtmp2MpegtsRemuxer.feedVideo checks len > nalu index *)
   fx_rtspidx : bool;    (* Rtmp2RtspRemuxer.remux checks len > nalu index *)
-  fx_hevcrec : bool;    (* hevc.parseVpsSpsPpsFromRecord checks len >= 33 *)
-  fx_hevcannexb : bool; (* hevc.parseVpsSpsPpsAnnexbFromRecord skips an empty nalu *)
+  fx_hevc : bool;       (* hevc.parseVpsSpsPpsFromRecord checks len >= 33, parseVpsSpsPpsAnnexbFromRecord skips an empty nalu
+                           (two fix commits, one flag: the C19 model has one `fixed` parameter for both) *)
   fx_dummy : bool       (* DummyAudioFilter fills at most 10 s per message, 64-bit compare *)
 }.
-Definition fixes_pinned : fixes := mk_fixes false false false false false false false false false false false.
-Definition fixes_all : fixes := mk_fixes true true true true true true true true true true true.
+Definition fixes_pinned : fixes := mk_fixes false false false false false false false false false false.
+Definition fixes_all : fixes := mk_fixes true true true true true true true true true true.
 
 Record mmsg := mk_mmsg { mm_type : N; mm_ts : N; mm_pay : bytes }.
 
